@@ -204,7 +204,7 @@ def parseFields : List String → Option (List (String × Bytes))
   | _ => none
 
 def handle (op : String) (args : List String) (impl : String) : Option (String × String) :=
-  if op = "certx" ∨ op = "certxpem" then
+  if op = "certx" ∨ op = "certxpem" ∨ op = "certxtrust" then
     match args with
     | _ :: rest => (parseFields rest).map fun fs => ("skip", holdsX fs impl)
     | [] => none
